@@ -124,9 +124,9 @@ def gen_history(rng, n, mode=None, warm=None, refs=True):
         """mostly an id that is alive (and reachable through e), sometimes any"""
         good = [i for i, k in sim.live.items() if e is None or e in CHAIN[k]]
         r = rng.random()
-        if good and r < 0.8:
+        if good and r < 0.88:
             return rng.choice(good)
-        if sim.live and r < 0.9:
+        if sim.live and r < 0.94:
             return rng.choice(list(sim.live))
         return rng.randint(1, sim.seq + 2)
 
@@ -276,7 +276,7 @@ def corpus():
 
 def generate(rng, tier):
     out = list(enum_cases())
-    n = 700 if tier == 'quick' else 12000
+    n = 3000 if tier == "quick" else 30000
     for i in range(n):
         out.append(gen_history(rng, rng.randint(3, 16)))
     return out
@@ -832,7 +832,7 @@ def key(case):
 
 
 def distribution(cases, obs):
-    d = {'ops': {}, 'outcomes': {}, 'mode': {}, 'warm': 0, 'create_failed_at': {}, 'entry_vs_class': {}, 'select_from': {}}
+    d = {'ops': {}, 'outcomes': {}, 'mode': {}, 'warm': 0, 'create_failed': {}, 'entry_vs_class': {}, 'select_from': {}}
     for c, o in zip(cases, obs):
         if not isinstance(o, dict) or 'steps' not in o:
             continue
@@ -848,7 +848,7 @@ def distribution(cases, obs):
                 born[r[1]] = op[1]
             if op[0] == 'create' and r[0] == 'err':
                 kk = '%s:%s' % (op[1], r[1])
-                d['create_failed_at'][kk] = d['create_failed_at'].get(kk, 0) + 1
+                d['create_failed'][kk] = d['create_failed'].get(kk, 0) + 1
             if op[0] in ('get', 'setattr', 'set', 'destroy') and r[0] != 'err' and op[2] in born:
                 kk = '%s->%s' % (op[1], born[op[2]])
                 d['entry_vs_class'][kk] = d['entry_vs_class'].get(kk, 0) + 1
